@@ -54,6 +54,9 @@ Definition sess_none (h : hstate) (na : naddr) : Prop := alist_get na (sessions 
 Definition has_init (h : hstate) (na : naddr) : Prop :=
   exists l, alist_get na (active h) = Some l /\ existsb rc_init l = true.
 
+(* the keys of the session cache are pairwise distinct (an expired entry is removed by key) *)
+Definition SessND (h : hstate) : Prop := NoDup (map fst (sessions h)).
+
 (* [cred]: the node address of a session-initiating request that was taken out of the active
    requests and is about to be re-inserted or failed *)
 Definition AwaitC (cred : option naddr) (h : hstate) (na : naddr) : Prop :=
@@ -69,7 +72,7 @@ Definition AQ (c : config) (act : list (naddr * list rcall)) : Prop :=
 (* [E]: node addresses whose queue is about to be released or failed *)
 Definition NOC (c : config) (cred : option naddr) (E : naddr -> Prop) (h : hstate) : Prop :=
   AQ c (active h) /\ NoDup (map fst (pending h)) /\
-  forall na, ~ E na -> alist_get na (pending h) = None \/ AwaitC cred h na.
+  (forall na, ~ E na -> alist_get na (pending h) = None \/ AwaitC cred h na) /\ SessND h.
 Definition none : naddr -> Prop := fun _ => False.
 Definition NoOrph (c : config) (h : hstate) : Prop := NOC c None none h.
 
@@ -77,51 +80,87 @@ Lemma naddr_dec : forall a b : naddr, a = b \/ a <> b.
 Proof. intros a b. destruct (naddr_eqb a b) eqn:E; [left; apply naddr_eqb_spec; exact E|right; apply naddr_eqb_neq; exact E]. Qed.
 
 Lemma NOC_weaken : forall c cred (E E' : naddr -> Prop) h, (forall na, E na -> E' na) -> NOC c cred E h -> NOC c cred E' h.
-Proof. intros c cred E E' h H (A & B & C). split; [exact A|split; [exact B|]]. intros na Hn. apply C. auto. Qed.
+Proof.
+  intros c cred E E' h H (A & B & C & D). split; [exact A|split; [exact B|split; [|exact D]]]. intros na Hn. apply C. auto.
+Qed.
+(* the invariant does not depend on the clock of the environment *)
+Lemma NOC_with_clock : forall c t cred E h, NOC (with_clock c t) cred E h = NOC c cred E h.
+Proof. reflexivity. Qed.
 
 (* states that agree on the relevant parts *)
 Definition same_no (h' h : hstate) : Prop :=
   active h' = active h /\ pending h' = pending h /\ challenges h' = challenges h /\
-  (forall na, sess_none h na -> sess_none h' na).
+  (forall na, sess_none h na -> sess_none h' na) /\ (SessND h -> SessND h').
 
 Lemma has_challenge_same : forall h h' na, challenges h' = challenges h -> has_challenge h' na = has_challenge h na.
 Proof. intros h h' na E. unfold has_challenge. rewrite E. reflexivity. Qed.
 
 Lemma NOC_same : forall c cred E h h', same_no h' h -> NOC c cred E h -> NOC c cred E h'.
 Proof.
-  intros c cred E h h' (E1 & E2 & E3 & E4) (A & B & C). split; [rewrite E1; exact A|split; [rewrite E2; exact B|]].
+  intros c cred E h h' (E1 & E2 & E3 & E4 & E5) (A & B & C & D).
+  split; [rewrite E1; exact A|split; [rewrite E2; exact B|split; [|apply E5; exact D]]].
   intros na Hn. rewrite E2. destruct (C na Hn) as [H|H]; [left; exact H|right].
   destruct H as [H|[H1 H2]]; [left; rewrite (has_challenge_same h h' na E3); exact H|right].
   split; [apply E4; exact H1|]. destruct H2 as [H2|H2]; [left; exact H2|right]. unfold has_init in *. rewrite E1. exact H2.
 Qed.
 
 Lemma same_no_refl : forall h, same_no h h.
-Proof. intros h. repeat split; auto. Qed.
+Proof. intros h. split; [|split; [|split; [|split]]]; auto. Qed.
 Lemma same_no_trans : forall h1 h2 h3, same_no h1 h2 -> same_no h2 h3 -> same_no h1 h3.
 Proof.
-  intros h1 h2 h3 (A1 & A2 & A3 & A4) (B1 & B2 & B3 & B4). repeat split; try congruence. intros na H. apply A4, B4, H.
+  intros h1 h2 h3 (A1 & A2 & A3 & A4 & A5) (B1 & B2 & B3 & B4 & B5).
+  split; [congruence|split; [congruence|split; [congruence|split]]].
+  - intros na H. apply A4, B4, H.
+  - intros H. apply A5, B5, H.
 Qed.
-
-Lemma sess_get_no : forall h na, same_no (fst (sess_get h na)) h.
+(* states that differ only in parts the invariant does not look at *)
+Lemma same_no_sess : forall h' h, active h' = active h -> pending h' = pending h -> challenges h' = challenges h ->
+  sessions h' = sessions h -> same_no h' h.
 Proof.
-  intros h na. unfold sess_get. destruct (alist_get na (sessions h)) as [se|] eqn:G; [|apply same_no_refl].
-  cbn [fst]. repeat split. intros na' H. unfold sess_none in *. cbn [set_sessions sessions].
-  rewrite alist_get_app. destruct (naddr_eqb na' na) eqn:E.
-  - apply naddr_eqb_spec in E. subst. congruence.
-  - rewrite alist_get_remove_other by assumption. rewrite H. cbn [alist_get]. rewrite E. reflexivity.
-Qed.
-
-Lemma sess_put_no : forall h na se, alist_get na (sessions h) <> None -> same_no (sess_put h na se) h.
-Proof.
-  intros h na se G. repeat split. intros na' H. unfold sess_none in *. cbn [sess_put set_sessions sessions].
-  rewrite alist_get_set. destruct (naddr_eqb na' na) eqn:E; [|exact H]. apply naddr_eqb_spec in E. subst. contradiction.
+  intros h' h E1 E2 E3 E4. split; [exact E1|split; [exact E2|split; [exact E3|]]].
+  unfold sess_none, SessND. rewrite E4. auto.
 Qed.
 
 Lemma sess_remove_no : forall h na, same_no (sess_remove h na) h.
 Proof.
-  intros h na. repeat split. intros na' H. unfold sess_none in *. cbn [sess_remove set_sessions sessions].
-  apply alist_get_none. apply alist_get_none in H. intros Hin. apply H.
-  apply in_map_iff in Hin. destruct Hin as (x & Hx & Hin). apply alist_remove_in in Hin. apply in_map_iff. eauto.
+  intros h na. split; [reflexivity|split; [reflexivity|split; [reflexivity|split]]].
+  - intros na' H. unfold sess_none in *. cbn [sess_remove set_sessions sessions].
+    apply alist_get_none. apply alist_get_none in H. intros Hin. apply H.
+    apply in_map_iff in Hin. destruct Hin as (x & Hx & Hin). apply alist_remove_in in Hin. apply in_map_iff. eauto.
+  - intros D. unfold SessND in *. cbn [sess_remove set_sessions sessions]. apply alist_remove_keys_nodup. exact D.
+Qed.
+
+Lemma sess_get_no : forall c h na, same_no (fst (sess_get c h na)) h.
+Proof.
+  intros c h na. unfold sess_get. destruct (alist_get na (sessions h)) as [se|] eqn:G; [|apply same_no_refl].
+  destruct (sess_expired c se); cbn [fst]; [exact (sess_remove_no h na)|].
+  split; [reflexivity|split; [reflexivity|split; [reflexivity|split]]].
+  - intros na' H. unfold sess_none in *. cbn [set_sessions sessions].
+    rewrite alist_get_app. destruct (naddr_eqb na' na) eqn:E.
+    + apply naddr_eqb_spec in E. subst. congruence.
+    + rewrite alist_get_remove_other by assumption. rewrite H. cbn [alist_get]. rewrite E. reflexivity.
+  - intros D. unfold SessND in *. cbn [set_sessions sessions]. rewrite map_app. cbn [map fst].
+    apply NoDup_snoc; [apply alist_remove_keys_nodup; exact D|apply alist_remove_key_gone; exact D].
+Qed.
+
+Lemma sess_put_no : forall h na se, alist_get na (sessions h) <> None -> same_no (sess_put h na se) h.
+Proof.
+  intros h na se G. split; [reflexivity|split; [reflexivity|split; [reflexivity|split]]].
+  - intros na' H. unfold sess_none in *. cbn [sess_put set_sessions sessions].
+    rewrite alist_get_set. destruct (naddr_eqb na' na) eqn:E; [|exact H]. apply naddr_eqb_spec in E. subst. contradiction.
+  - intros D. unfold SessND in *. cbn [sess_put set_sessions sessions].
+    destruct (alist_get na (sessions h)) as [s0|] eqn:G0; [|contradiction]. rewrite (alist_set_keys _ _ _ _ G0). exact D.
+Qed.
+
+Lemma remove_expired_sessions_no : forall c s, same_no (hs (remove_expired_sessions c s)) (hs s).
+Proof.
+  intros c s. rewrite remove_expired_sessions_hs. destruct (drop_expired_split c (sessions (hs s))) as (pre & H1 & _).
+  set (suf := snd (drop_expired c (sessions (hs s)))) in *.
+  split; [reflexivity|split; [reflexivity|split; [reflexivity|split]]].
+  - intros na H. unfold sess_none in *. cbn [set_sessions sessions]. rewrite H1, alist_get_app in H.
+    destruct (alist_get na pre); [discriminate|exact H].
+  - intros D. unfold SessND in *. cbn [set_sessions sessions]. rewrite H1, map_app in D.
+    clear H1. induction pre as [|x t IH]; [exact D|]. apply IH. cbn [map app] in D. inversion D; assumption.
 Qed.
 
 Lemma alist_get_tl_none : forall {A} (l : list (naddr * A)) k, alist_get k l = None -> alist_get k (tl l) = None.
@@ -133,11 +172,24 @@ Qed.
 Lemma sess_insert_none : forall c h na se na', na' <> na -> sess_none h na' -> sess_none (sess_insert c h na se) na'.
 Proof.
   intros c h na se na' Hne H. unfold sess_none in *. cbn [sess_insert set_sessions sessions].
+  generalize (touch se (cfg_clock c)). clear se. intros se.
   assert (X : alist_get na' (alist_remove na (sessions h) ++ [(na, se)]) = None).
   { rewrite alist_get_app. rewrite alist_get_remove_other by (apply naddr_eqb_neq; exact Hne). rewrite H.
     cbn [alist_get]. apply naddr_eqb_neq in Hne. rewrite Hne. reflexivity. }
   destruct (Nat.ltb (cfg_capacity c) (length (alist_remove na (sessions h) ++ [(na, se)]))); [|exact X].
   apply alist_get_tl_none. exact X.
+Qed.
+
+Lemma sess_insert_nd : forall c h na se, SessND h -> SessND (sess_insert c h na se).
+Proof.
+  intros c h na se D. unfold SessND in *. cbn [sess_insert set_sessions sessions].
+  generalize (touch se (cfg_clock c)). clear se. intros se.
+  assert (X : NoDup (map fst (alist_remove na (sessions h) ++ [(na, se)]))).
+  { rewrite map_app. cbn [map fst].
+    apply NoDup_snoc; [apply alist_remove_keys_nodup; exact D|apply alist_remove_key_gone; exact D]. }
+  destruct (Nat.ltb (cfg_capacity c) (length (alist_remove na (sessions h) ++ [(na, se)]))); [|exact X].
+  destruct (alist_remove na (sessions h) ++ [(na, se)]) as [|x t]; [exact X|]. cbn [tl]. cbn [map] in X.
+  inversion X; assumption.
 Qed.
 
 (* stored requests *)
@@ -215,9 +267,9 @@ Lemma NOC_take : forall c E h na l p r l' nm,
   NOC c None E h -> alist_get na (active h) = Some l -> remove_first p l = Some (r, l') ->
   NOC c (cred_of na r) E (set_active h (put_list na l' (active h)) nm) /\ Qreq c na r.
 Proof.
-  intros c E h na l p r l' nm (A & B & C) G R.
+  intros c E h na l p r l' nm (A & B & C & D) G R.
   destruct (remove_first_Forall _ _ _ _ _ R (AQ_get _ _ _ _ A G)) as [Hr Hl']. split; [|exact Hr].
-  split; [|split; [exact B|]]; cbn [set_active active pending].
+  split; [|split; [exact B|split; [|exact D]]]; cbn [set_active active pending].
   - apply AQ_put; assumption.
   - intros na' Hn. destruct (C na' Hn) as [H|H]; [left; exact H|right].
     destruct H as [H|[H1 [H2|H2]]]; [left; exact H|discriminate|right]. split; [exact H1|].
@@ -230,7 +282,7 @@ Lemma NOC_insert : forall c cred E h na r now,
   NOC c cred E h -> Qreq c na r -> (cred = None \/ (cred = Some na /\ rc_init r = true)) ->
   NOC c None E (ar_insert c h na r now).
 Proof.
-  intros c cred E h na r now (A & B & C) Hr Hc. split; [apply AQ_insert; assumption|split; [exact B|]].
+  intros c cred E h na r now (A & B & C & D) Hr Hc. split; [apply AQ_insert; assumption|split; [exact B|split; [|exact D]]].
   intros na' Hn. destruct (C na' Hn) as [H|H]; [left; exact H|right].
   destruct H as [H|[H1 H2]]; [left; exact H|right]. split; [exact H1|]. right.
   destruct H2 as [H2|H2].
@@ -242,7 +294,7 @@ Qed.
 Lemma NOC_cred_drop : forall c cred (E : naddr -> Prop) h na, (cred = None \/ cred = Some na) ->
   NOC c cred E h -> NOC c None (fun a => E a \/ a = na) h.
 Proof.
-  intros c cred E h na Hc (A & B & C). split; [exact A|split; [exact B|]]. intros na' Hn.
+  intros c cred E h na Hc (A & B & C & D). split; [exact A|split; [exact B|split; [|exact D]]]. intros na' Hn.
   destruct (C na') as [H|H]; [tauto|left; exact H|right].
   destruct H as [H|[H1 [H2|H2]]]; [left; exact H| |right; split; [exact H1|right; exact H2]].
   destruct Hc as [Hc|Hc]; [congruence|]. rewrite Hc in H2. inversion H2; subst. tauto.
@@ -251,40 +303,42 @@ Qed.
 (* ------------------------------------------------------------------------------------------ *)
 (* one lemma per model function *)
 
-Lemma sess_get_some : forall h na h2 se, sess_get h na = (h2, Some se) -> alist_get na (sessions h2) <> None.
+Lemma sess_get_some : forall c h na h2 se, sess_get c h na = (h2, Some se) -> alist_get na (sessions h2) <> None.
 Proof.
-  intros h na h2 se H. unfold sess_get in H. destruct (alist_get na (sessions h)) as [s0|]; inversion H; subst.
+  intros c h na h2 se H. apply sess_get_some_inv in H. destruct H as (s0 & _ & _ & _ & ->).
   cbn [set_sessions sessions]. rewrite alist_get_app.
   destruct (alist_get na (alist_remove na (sessions h))); [discriminate|]. cbn [alist_get]. rewrite naddr_eqb_refl. discriminate.
 Qed.
-Lemma sess_get_none : forall h na h2, sess_get h na = (h2, None) -> h2 = h /\ sess_none h na.
+(* nothing found: afterwards there is no session (an expired one has been removed) *)
+Lemma sess_get_none : forall c h na h2, SessND h -> sess_get c h na = (h2, None) -> sess_none h2 na.
 Proof.
-  intros h na h2 H. unfold sess_get in H. destruct (alist_get na (sessions h)) as [s0|] eqn:G; inversion H; subst. auto.
+  intros c h na h2 D H. apply sess_get_none_inv in H. destruct H as [-> _].
+  unfold sess_none. cbn [set_sessions sessions]. apply alist_get_remove_same. exact D.
 Qed.
 
-Lemma is_awaiting_session_no : forall s na,
-  same_no (hs (fst (is_awaiting_session s na))) (hs s) /\
-  (snd (is_awaiting_session s na) = true ->
-     sess_none (hs (fst (is_awaiting_session s na))) na /\ has_init (hs (fst (is_awaiting_session s na))) na).
+Lemma is_awaiting_session_no : forall c s na, SessND (hs s) ->
+  same_no (hs (fst (is_awaiting_session c s na))) (hs s) /\
+  (snd (is_awaiting_session c s na) = true ->
+     sess_none (hs (fst (is_awaiting_session c s na))) na /\ has_init (hs (fst (is_awaiting_session c s na))) na).
 Proof.
-  intros s na. unfold is_awaiting_session. pose proof (sess_get_no (hs s) na) as H.
-  destruct (sess_get (hs s) na) as [h se] eqn:G. cbn [fst] in H. destruct se as [se|]; cbn [fst snd with_hs hs].
+  intros c s na D. unfold is_awaiting_session. pose proof (sess_get_no c (hs s) na) as H.
+  destruct (sess_get c (hs s) na) as [h se] eqn:G. cbn [fst] in H. destruct se as [se|]; cbn [fst snd with_hs hs].
   - split; [exact H|discriminate].
-  - split; [exact H|]. intros Hx. apply sess_get_none in G. destruct G as [-> G]. split; [exact G|].
-    unfold has_init. destruct (alist_get na (active (hs s))) as [l|]; [|discriminate]. exists l. auto.
+  - split; [exact H|]. intros Hx. apply (sess_get_none c _ _ _ D) in G. split; [exact G|].
+    unfold has_init. destruct (alist_get na (active h)) as [l|]; [|discriminate]. exists l. auto.
 Qed.
 
 Lemma NOC_push_pending : forall c E h na q, NOC c None E h -> AwaitC None h na -> NOC c None E (push_pending h na q).
 Proof.
-  intros c E h na q (A & B & C) Hw. unfold push_pending.
+  intros c E h na q (A & B & C & D) Hw. unfold push_pending.
   assert (W : forall p, AwaitC None (set_pending h p) na) by (intros p; exact Hw).
   destruct (alist_get na (pending h)) as [l|] eqn:G.
-  - split; [exact A|split]; cbn [set_pending pending active].
+  - split; [exact A|split; [|split; [|exact D]]]; cbn [set_pending pending active].
     + rewrite (alist_set_keys _ _ _ _ G). exact B.
     + intros na' Hn. rewrite alist_get_set. destruct (naddr_eqb na' na) eqn:E1.
       * apply naddr_eqb_spec in E1. subst na'. right. exact Hw.
       * destruct (C na' Hn) as [H|H]; [left; exact H|right; exact H].
-  - split; [exact A|split]; cbn [set_pending pending active].
+  - split; [exact A|split; [|split; [|exact D]]]; cbn [set_pending pending active].
     + apply alist_keys_app_new; assumption.
     + intros na' Hn. rewrite alist_get_app. destruct (C na' Hn) as [H|H]; [|right; exact H].
       rewrite H. cbn [alist_get]. destruct (naddr_eqb na' na) eqn:E1; [|left; reflexivity].
@@ -304,19 +358,19 @@ Lemma send_request_no : forall c E s ct ext rid body now,
 Proof.
   intros c E s ct ext rid body now H. unfold send_request.
   destruct (existsb (N.eqb (c_addr ct)) (cfg_listen c)); [exact H|].
-  assert (H1 : let r := (if has_challenge (hs s) (c_naddr ct) then (s, true) else is_awaiting_session s (c_naddr ct)) in
+  assert (H1 : let r := (if has_challenge (hs s) (c_naddr ct) then (s, true) else is_awaiting_session c s (c_naddr ct)) in
                same_no (hs (fst r)) (hs s) /\ (snd r = true -> AwaitC None (hs (fst r)) (c_naddr ct))).
   { destruct (has_challenge (hs s) (c_naddr ct)) eqn:Hc; cbn [fst snd].
     - split; [apply same_no_refl|]. intros _. left. exact Hc.
-    - destruct (is_awaiting_session_no s (c_naddr ct)) as [X1 X2]. split; [exact X1|]. intros Hx. right.
+    - destruct (is_awaiting_session_no c s (c_naddr ct)) as [X1 X2]; [apply H|]. split; [exact X1|]. intros Hx. right.
       destruct (X2 Hx) as [Y1 Y2]. split; [exact Y1|right; exact Y2]. }
-  destruct (if has_challenge (hs s) (c_naddr ct) then (s, true) else is_awaiting_session s (c_naddr ct))
+  destruct (if has_challenge (hs s) (c_naddr ct) then (s, true) else is_awaiting_session c s (c_naddr ct))
     as [s1 aw]. cbn [fst snd] in H1. destruct H1 as [H1 H1'].
   assert (H2 : NOC c None E (hs s1)) by (eapply NOC_same; eauto).
   destruct aw; cbn [fst].
   - cbn [with_hs hs]. apply NOC_push_pending; [exact H2|]. apply H1'. reflexivity.
-  - pose proof (sess_get_no (hs s1) (c_naddr ct)) as H4. pose proof (sess_get_some (hs s1) (c_naddr ct)) as H4'.
-    destruct (sess_get (hs s1) (c_naddr ct)) as [h2 se]. cbn [fst] in H4.
+  - pose proof (sess_get_no c (hs s1) (c_naddr ct)) as H4. pose proof (sess_get_some c (hs s1) (c_naddr ct)) as H4'.
+    destruct (sess_get c (hs s1) (c_naddr ct)) as [h2 se]. cbn [fst] in H4.
     assert (H3 : NOC c None E h2) by (eapply NOC_same; eauto).
     destruct se as [se|].
     + specialize (H4' _ _ eq_refl).
@@ -325,7 +379,8 @@ Proof.
       cbn [fst with_hs hs] in H5. cbn [fst with_hs hs send emit].
       apply (NOC_insert c None); [|apply Qreq_new|left; reflexivity].
       cbn [add_expected with_hs hs]. eapply NOC_same; [|exact H3]. rewrite H5.
-      destruct (sess_put_no h2 (c_naddr ct) se' H4') as (P1 & P2 & P3 & P4). repeat split; auto.
+      destruct (sess_put_no h2 (c_naddr ct) se' H4') as (P1 & P2 & P3 & P4 & P5).
+      split; [exact P1|split; [exact P2|split; [exact P3|split; [exact P4|exact P5]]]].
     + destruct (pop_pk (dr (with_hs s1 h2))) as [[[[cn r] aad] x4] d']. cbn [fst with_hs hs send emit].
       apply (NOC_insert c None); [|apply Qreq_new|left; reflexivity].
       cbn [add_expected with_hs hs]. eapply NOC_same; [|exact H3]. repeat split; auto.
@@ -346,7 +401,7 @@ Qed.
 Lemma NOC_remove_pending : forall c (E : naddr -> Prop) h na,
   NOC c None (fun a => E a \/ a = na) h -> NOC c None E (set_pending h (alist_remove na (pending h))).
 Proof.
-  intros c E h na (A & B & C). split; [exact A|split]; cbn [set_pending pending active].
+  intros c E h na (A & B & C & D). split; [exact A|split; [|split; [|exact D]]]; cbn [set_pending pending active].
   - apply alist_remove_keys_nodup. exact B.
   - intros na' Hn. destruct (naddr_eqb na' na) eqn:E1.
     + apply naddr_eqb_spec in E1. subst na'. left. apply alist_get_remove_same. exact B.
@@ -356,7 +411,7 @@ Qed.
 Lemma NOC_pending_none : forall c (E : naddr -> Prop) h na,
   NOC c None (fun a => E a \/ a = na) h -> alist_get na (pending h) = None -> NOC c None E h.
 Proof.
-  intros c E h na (A & B & C) G. split; [exact A|split; [exact B|]]. intros na' Hn.
+  intros c E h na (A & B & C & D) G. split; [exact A|split; [exact B|split; [|exact D]]]. intros na' Hn.
   destruct (naddr_dec na' na) as [->|Hne]; [left; exact G|]. apply C. tauto.
 Qed.
 
@@ -372,9 +427,10 @@ Qed.
 Lemma NOC_remove_requests : forall c E h na h3 reqs,
   NOC c None E h -> alist_get na (pending h) = None -> ar_remove_requests h na = (h3, reqs) -> NOC c None E h3.
 Proof.
-  intros c E h na h3 reqs (A & B & C) G R. unfold ar_remove_requests in R.
-  destruct (alist_get na (active h)) as [l|] eqn:G1; injection R as <- <-; [|split; [exact A|split; [exact B|exact C]]].
-  split; [apply AQ_remove; exact A|split; [exact B|]]. cbn [set_active active pending].
+  intros c E h na h3 reqs (A & B & C & D) G R. unfold ar_remove_requests in R.
+  destruct (alist_get na (active h)) as [l|] eqn:G1; injection R as <- <-;
+    [|split; [exact A|split; [exact B|split; [exact C|exact D]]]].
+  split; [apply AQ_remove; exact A|split; [exact B|split; [|exact D]]]. cbn [set_active active pending].
   intros na' Hn. destruct (naddr_dec na' na) as [->|Hne]; [left; exact G|].
   destruct (C na' Hn) as [H|H]; [left; exact H|right].
   destruct H as [H|[H1 [H2|H2]]]; [left; exact H|discriminate|right]. split; [exact H1|right].
@@ -392,9 +448,10 @@ Lemma fail_session_no : forall c (E : naddr -> Prop) s na err rm,
   NOC c None (fun a => E a \/ a = na) (hs s) -> NOC c None E (hs (fail_session c s na err rm)).
 Proof.
   intros c E s na err rm H. unfold fail_session.
-  set (s1 := if rm then with_hs s (sess_remove (hs s) na) else s).
+  set (s1 := if rm then let s0 := remove_expired_sessions c s in with_hs s0 (sess_remove (hs s0) na) else s).
   assert (H1 : NOC c None (fun a => E a \/ a = na) (hs s1)).
-  { subst s1. destruct rm; [|exact H]. apply NOC_with_same; [apply sess_remove_no|exact H]. }
+  { subst s1. destruct rm; [|exact H]. cbv zeta. apply NOC_with_same; [apply sess_remove_no|].
+    eapply NOC_same; [apply remove_expired_sessions_no|exact H]. }
   clearbody s1.
   set (s2 := match alist_get na (pending (hs s1)) with Some l => _ | None => s1 end).
   assert (H2 : NOC c None E (hs s2) /\ alist_get na (pending (hs s2)) = None).
@@ -435,7 +492,7 @@ Proof.
   intros c cred E h old p now H. rewrite ar_update_packet_eq.
   destruct (nmap_get old (nmap h)) as [na|]; [|exact H]. cbv zeta.
   destruct (alist_get na (active h)) as [l|] eqn:G; [|exact H].
-  destruct H as (A & B & C). split; [|split; [exact B|]]; cbn [set_active active pending].
+  destruct H as (A & B & C & D). split; [|split; [exact B|split; [|exact D]]]; cbn [set_active active pending].
   - apply AQ_set; [exact A|]. apply upd_pkt_Q. eapply AQ_get; eauto.
   - intros na' Hn. destruct (C na' Hn) as [H|H]; [left; exact H|right].
     destruct H as [H|[H1 H2]]; [left; exact H|right]. split; [exact H1|]. destruct H2 as [H2|H2]; [left; exact H2|right].
@@ -450,8 +507,9 @@ Lemma replay_active_requests_no : forall c E s na skip now,
   NOC c None E (hs s) -> NOC c None E (hs (replay_active_requests c s na skip now)).
 Proof.
   intros c E s na skip now H. unfold replay_active_requests.
-  pose proof (sess_get_no (hs s) na) as H1. pose proof (sess_get_some (hs s) na) as H1'.
-  destruct (sess_get (hs s) na) as [h1 se]. cbn [fst] in H1. destruct se as [se0|]; [|exact H].
+  pose proof (sess_get_no c (hs s) na) as H1. pose proof (sess_get_some c (hs s) na) as H1'.
+  destruct (sess_get c (hs s) na) as [h1 se]. cbn [fst] in H1.
+  destruct se as [se0|]; [|cbn [with_hs hs]; eapply NOC_same; eauto].
   specialize (H1' _ _ eq_refl).
   match goal with |- context [fold_left ?f ?l (with_hs s h1, se0, [])] =>
     assert (X : hs (fst (fst (fold_left f l (with_hs s h1, se0, [])))) = h1) end.
@@ -472,7 +530,7 @@ Qed.
 Lemma NOC_sess_insert : forall c (E : naddr -> Prop) h na se,
   NOC c None (fun a => E a \/ a = na) h -> NOC c None (fun a => E a \/ a = na) (sess_insert c h na se).
 Proof.
-  intros c E h na se (A & B & C). split; [exact A|split; [exact B|]]. intros na' Hn.
+  intros c E h na se (A & B & C & D). split; [exact A|split; [exact B|split; [|apply sess_insert_nd; exact D]]]. intros na' Hn.
   destruct (C na' Hn) as [H|H]; [left; exact H|right].
   destruct H as [H|[H1 H2]]; [left; exact H|right]. split; [|exact H2].
   apply sess_insert_none; [tauto|exact H1].
@@ -482,8 +540,11 @@ Lemma new_session_no : forall c (E : naddr -> Prop) s na se skip now, fix_d2a c 
   NOC c None (fun a => E a \/ a = na) (hs s) -> NOC c None E (hs (new_session c s na se skip now)).
 Proof.
   intros c E s na se skip now D2 H. unfold new_session.
-  pose proof (sess_get_no (hs s) na) as H1. pose proof (sess_get_some (hs s) na) as H1'.
-  destruct (sess_get (hs s) na) as [h1 cur]. cbn [fst] in H1.
+  assert (H0 : NOC c None (fun a => E a \/ a = na) (hs (remove_expired_sessions c s))).
+  { eapply NOC_same; [apply remove_expired_sessions_no|exact H]. }
+  clear H. revert H0. generalize (remove_expired_sessions c s). clear s. intros s H.
+  pose proof (sess_get_no c (hs s) na) as H1. pose proof (sess_get_some c (hs s) na) as H1'.
+  destruct (sess_get c (hs s) na) as [h1 cur]. cbn [fst] in H1.
   assert (H2 : NOC c None (fun a => E a \/ a = na) h1) by (eapply NOC_same; eauto).
   destruct cur as [cs|].
   - specialize (H1' _ _ eq_refl). rewrite D2. apply send_pending_requests_no, replay_active_requests_no.
@@ -508,8 +569,9 @@ Qed.
 Lemma send_response_no : forall c E s na rid rb, NOC c None E (hs s) -> NOC c None E (hs (send_response c s na rid rb)).
 Proof.
   intros c E s na rid rb H. unfold send_response.
-  pose proof (sess_get_no (hs s) na) as H1. pose proof (sess_get_some (hs s) na) as H1'.
-  destruct (sess_get (hs s) na) as [h1 se]. cbn [fst] in H1. destruct se as [se|]; [|exact H].
+  pose proof (sess_get_no c (hs s) na) as H1. pose proof (sess_get_some c (hs s) na) as H1'.
+  destruct (sess_get c (hs s) na) as [h1 se]. cbn [fst] in H1.
+  destruct se as [se|]; [|cbn [with_hs hs]; eapply NOC_same; eauto].
   specialize (H1' _ _ eq_refl).
   pose proof (encrypt_message_hs c (with_hs s h1) na se (MResp rid rb)) as Y.
   destruct (encrypt_message c (with_hs s h1) na se (MResp rid rb)) as [[s2 se'] p].
@@ -522,7 +584,7 @@ Proof. intros h na l H. unfold has_challenge in *. cbn [set_challenges challenge
 
 Lemma NOC_add_challenge : forall c cred E h x, NOC c cred E h -> NOC c cred E (set_challenges h (challenges h ++ [x])).
 Proof.
-  intros c cred E h x (A & B & C). split; [exact A|split; [exact B|]]. intros na' Hn.
+  intros c cred E h x (A & B & C & D). split; [exact A|split; [exact B|split; [|exact D]]]. intros na' Hn.
   destruct (C na' Hn) as [H|H]; [left; exact H|right].
   destruct H as [H|H]; [left; apply has_challenge_app; exact H|right; exact H].
 Qed.
@@ -543,8 +605,8 @@ Lemma NOC_take_sess : forall c E h na l p r l' nm,
   alist_get na (active h) = Some l -> remove_first p l = Some (r, l') ->
   NOC c None E (set_active h (put_list na l' (active h)) nm) /\ Qreq c na r.
 Proof.
-  intros c E h na l p r l' nm H Hs G R. destruct (NOC_take c E h na l p r l' nm H G R) as [(A & B & C) Hq].
-  split; [|exact Hq]. split; [exact A|split; [exact B|]]. intros na' Hn.
+  intros c E h na l p r l' nm H Hs G R. destruct (NOC_take c E h na l p r l' nm H G R) as [(A & B & C & D) Hq].
+  split; [|exact Hq]. split; [exact A|split; [exact B|split; [|exact D]]]. intros na' Hn.
   destruct (C na' Hn) as [X|X]; [left; exact X|right].
   destruct X as [X|[X1 [X2|X2]]]; [left; exact X| |right; split; [exact X1|right; exact X2]].
   exfalso. unfold cred_of in X2. destruct (rc_init r); [|discriminate]. inversion X2; subst na'.
@@ -594,8 +656,9 @@ Lemma handle_message_no : forall c E s na n aad ct now,
   NOC c None E (hs s) -> NOC c None E (hs (handle_message c s na n aad ct now)).
 Proof.
   intros c E s na n aad ct now H. unfold handle_message.
-  pose proof (sess_get_no (hs s) na) as H1. pose proof (sess_get_some (hs s) na) as H1'.
-  destruct (sess_get (hs s) na) as [h1 se]. cbn [fst] in H1. destruct se as [se|]; [|exact H].
+  pose proof (sess_get_no c (hs s) na) as H1. pose proof (sess_get_some c (hs s) na) as H1'.
+  destruct (sess_get c (hs s) na) as [h1 se]. cbn [fst] in H1.
+  destruct se as [se|]; [|cbn [emit with_hs hs]; eapply NOC_same; eauto].
   specialize (H1' _ _ eq_refl).
   destruct (decrypt_message se n aad ct) as [se' m].
   set (s2 := with_hs (with_hs s h1) (sess_put (hs (with_hs s h1)) na se')).
@@ -645,7 +708,7 @@ Qed.
 Lemma NOC_chall_remove : forall c (E : naddr -> Prop) h na,
   NOC c None E h -> NOC c None (fun a => E a \/ a = na) (set_challenges h (chall_remove na (challenges h))).
 Proof.
-  intros c E h na (A & B & C). split; [exact A|split; [exact B|]]. intros na' Hn.
+  intros c E h na (A & B & C & D). split; [exact A|split; [exact B|split; [|exact D]]]. intros na' Hn.
   destruct (C na') as [H|H]; [tauto|left; exact H|right].
   destruct H as [H|H]; [left|right; exact H]. unfold has_challenge in *. cbn [set_challenges challenges].
   rewrite has_challenge_remove_other; [exact H|tauto].
@@ -662,7 +725,7 @@ Proof.
   destruct (establish c (fst na) ch sg eph eph_ok rec) as [se e| |].
   - apply handle_message_no, new_session_no; [exact D2|].
     eapply NOC_same; [|exact H1]. destruct (verify_enr e na); repeat split; auto.
-  - cbn [with_hs hs]. destruct H1 as (A & B & C). split; [exact A|split; [exact B|]]. intros na' Hn.
+  - cbn [with_hs hs]. destruct H1 as (A & B & C & D). split; [exact A|split; [exact B|split; [|exact D]]]. intros na' Hn.
     destruct (naddr_dec na' na) as [->|Hne].
     + right. left. unfold has_challenge. cbn [set_challenges challenges]. rewrite existsb_app. cbn [existsb fst].
       rewrite naddr_eqb_refl. destruct (existsb _ (challenges (hs s1))); reflexivity.
@@ -674,7 +737,7 @@ Qed.
 Lemma NOC_put_same : forall c E h na l nm, NOC c None E h -> alist_get na (active h) = Some l ->
   NOC c None E (set_active h (put_list na l (active h)) nm).
 Proof.
-  intros c E h na l nm (A & B & C) G. split; [|split; [exact B|]]; cbn [set_active active pending].
+  intros c E h na l nm (A & B & C & D) G. split; [|split; [exact B|split; [|exact D]]]; cbn [set_active active pending].
   - apply AQ_put; [exact A|]. eapply AQ_get; eauto.
   - intros na' Hn. destruct (C na' Hn) as [H|H]; [left; exact H|right].
     destruct H as [H|[H1 [H2|H2]]]; [left; exact H|discriminate|right]. split; [exact H1|right].
@@ -714,7 +777,7 @@ Proof.
   assert (Hc' : cred_of na r = None \/ cred_of na r = Some na) by tauto.
   destruct (negb (N.eqb (snd na) src)).
   { cbn [with_hs hs]. eapply NOC_insert; eauto. }
-  destruct (rc_hs_sent r).
+  destruct (rc_hs_sent r || c_ed (rc_contact r)).
   { eapply (fail_request_no c E (cred_of na r) _ na); [exact Hq|exact Hc'|].
     eapply NOC_same; [|exact H1]. destruct (fix_d6 c); repeat split; auto. }
   destruct (pop_pk (dr (with_hs s h1))) as [[[[cn rr] aad] eph] d'].
@@ -763,14 +826,15 @@ Proof.
   assert (FR : forall d, NOC c None E (hs (match group_of d (nmap (hs s)) with
       | _ :: _ :: _ =>
         let (rev_order, d') := pop_rev (dr s) in
-        fire_group c {| hs := hs s; dr := d'; outs := outs s |}
+        fire_group (with_clock c (fire_time c d now)) {| hs := hs s; dr := d'; outs := outs s |}
           (if rev_order then rev (group_of d (nmap (hs s))) else group_of d (nmap (hs s))) d (fire_time c d now)
-      | _ => fire_group c s (group_of d (nmap (hs s))) d (fire_time c d now)
+      | _ => fire_group (with_clock c (fire_time c d now)) s (group_of d (nmap (hs s))) d (fire_time c d now)
       end))).
-  { intros d. destruct (group_of d (nmap (hs s))) as [|x [|y g]]; try (apply fire_group_no; exact H).
+  { intros d. rewrite <- (NOC_with_clock c (fire_time c d now)).
+    destruct (group_of d (nmap (hs s))) as [|x [|y g]]; try (apply fire_group_no; exact H).
     destruct (pop_rev (dr s)) as [ro d']. apply fire_group_no. exact H. }
-  assert (FC : forall cna cd, NOC c None E (hs (fire_challenge c s cna (fire_time c cd now)))).
-  { intros. apply fire_challenge_no. exact H. }
+  assert (FC : forall cna cd, NOC c None E (hs (fire_challenge (with_clock c (fire_time c cd now)) s cna (fire_time c cd now)))).
+  { intros. rewrite <- (NOC_with_clock c (fire_time c cd now)). apply fire_challenge_no. exact H. }
   destruct (min_deadline_nmap (nmap (hs s)) None) as [[[rn ra] rd]|];
   destruct (min_deadline_ch (challenges (hs s)) None) as [[[cna cc] cd]|].
   - destruct (N.ltb rd now && (negb (N.ltb cd now) || N.leb rd cd)); [apply IH; apply FR|].
@@ -797,8 +861,8 @@ Qed.
 
 Theorem step_no_orphans : forall c h e now d, fix_d2a c = true -> NoOrph c h -> NoOrph c (fst (step c h e now d)).
 Proof.
-  intros c h e now d D2 H. rewrite step_unfold. cbn [fst]. apply step_event_no; [exact D2|].
-  apply fire_due_no. exact H.
+  intros c h e now d D2 H. rewrite step_unfold. cbn [fst]. unfold NoOrph. rewrite <- (NOC_with_clock c now).
+  apply step_event_no; [exact D2|]. apply fire_due_no. exact H.
 Qed.
 
 Lemma run_no_orphans : forall c evs h, fix_d2a c = true -> NoOrph c h -> NoOrph c (fst (run c h evs)).
@@ -810,7 +874,7 @@ Proof.
 Qed.
 
 Lemma NoOrph_init : forall c, NoOrph c init_state.
-Proof. intros c. split; [constructor|split; [constructor|]]. intros na _. left. reflexivity. Qed.
+Proof. intros c. split; [constructor|split; [constructor|split; [|constructor]]]. intros na _. left. reflexivity. Qed.
 
 (* ------------------------------------------------------------------------------------------ *)
 (* the theorems *)
@@ -822,7 +886,7 @@ Theorem no_orphans : forall c evs, fix_d2a c = true ->
     (alist_get na (sessions h) = None /\
      exists rs r, alist_get na (active h) = Some rs /\ In r rs /\ rc_init r = true).
 Proof.
-  intros c evs D2 h na l G. destruct (run_no_orphans c evs init_state D2 (NoOrph_init c)) as (_ & _ & C).
+  intros c evs D2 h na l G. destruct (run_no_orphans c evs init_state D2 (NoOrph_init c)) as (_ & _ & C & _).
   fold h in C. destruct (C na) as [X|X]; [intros []|congruence|].
   destruct X as [X|[X1 [X2|X2]]]; [left| discriminate |right].
   - unfold has_challenge in X. apply existsb_exists in X. destruct X as ([[a ch] d] & Hin & E). cbn [fst] in E.
@@ -836,7 +900,7 @@ Theorem stored_requests_bounded : forall c evs, fix_d2a c = true ->
   forall na rs r, In (na, rs) (active h) -> In r rs ->
     c_naddr (rc_contact r) = na /\ (1 <= rc_retries r)%N /\ (rc_retries r <= N.max 1 (cfg_retries c))%N.
 Proof.
-  intros c evs D2 h na rs r H1 H2. destruct (run_no_orphans c evs init_state D2 (NoOrph_init c)) as (A & _ & _).
+  intros c evs D2 h na rs r H1 H2. destruct (run_no_orphans c evs init_state D2 (NoOrph_init c)) as (A & _ & _ & _).
   fold h in A. unfold AQ in A. rewrite Forall_forall in A. specialize (A _ H1). cbn [fst snd] in A.
   rewrite Forall_forall in A. apply (A _ H2).
 Qed.
@@ -851,8 +915,12 @@ Proof. intros. unfold wcount. rewrite filter_app, app_length. reflexivity. Qed.
 Lemma fail_session_wires : forall c s na err rm, wcount (outs (fail_session c s na err rm)) = wcount (outs s).
 Proof.
   intros c s na err rm. unfold fail_session.
-  set (s1 := if rm then with_hs s (sess_remove (hs s) na) else s).
-  assert (H1 : wcount (outs s1) = wcount (outs s)) by (subst s1; destruct rm; reflexivity). clearbody s1.
+  set (s1 := if rm then let s0 := remove_expired_sessions c s in with_hs s0 (sess_remove (hs s0) na) else s).
+  assert (H1 : wcount (outs s1) = wcount (outs s)).
+  { subst s1. destruct rm; [|reflexivity]. cbv zeta. cbn [with_hs outs].
+    destruct (remove_expired_sessions_outs c s) as [X|[ks X]]; rewrite X; [reflexivity|].
+    rewrite wcount_app. cbn. lia. }
+  clearbody s1.
   set (s2 := match alist_get na (pending (hs s1)) with Some l => _ | None => s1 end).
   assert (H2 : wcount (outs s2) = wcount (outs s)).
   { subst s2. destruct (alist_get na (pending (hs s1))) as [l|]; [|exact H1].
@@ -874,8 +942,12 @@ Proof.
   - intros Hx. rewrite Hx.
     assert (X : forall c s0 na0 err rm o, In o (outs s0) -> In o (outs (fail_session c s0 na0 err rm))).
     { clear. intros c s0 na0 err rm o Hin. unfold fail_session.
-      set (s1 := if rm then with_hs s0 (sess_remove (hs s0) na0) else s0).
-      assert (H1 : In o (outs s1)) by (subst s1; destruct rm; exact Hin). clearbody s1.
+      set (s1 := if rm then let s' := remove_expired_sessions c s0 in with_hs s' (sess_remove (hs s') na0) else s0).
+      assert (H1 : In o (outs s1)).
+      { subst s1. destruct rm; [|exact Hin]. cbv zeta. cbn [with_hs outs].
+        destruct (remove_expired_sessions_outs c s0) as [X|[ks X]]; rewrite X; [exact Hin|].
+        apply in_or_app. left. exact Hin. }
+      clearbody s1.
       set (s2 := match alist_get na0 (pending (hs s1)) with Some l => _ | None => s1 end).
       assert (H2 : In o (outs s2)).
       { subst s2. destruct (alist_get na0 (pending (hs s1))) as [l|]; [|exact H1].
